@@ -414,6 +414,40 @@ mod verif_c08 {
         builtin_error_case(false);
     }
 
+    /// The same through the native-call path (`call_native`'s Err arm): `Fiber.yield(x)` outside any
+    /// fiber is a built-in call that fails. Inside try..finally the error reaches the finally block and
+    /// continues to the enclosing handler afterwards.
+    #[kani::proof]
+    #[kani::unwind(5)]
+    #[kani::stub(std::fmt::format, fmt_stub)]
+    #[kani::stub(crate::vm::Vm::new_root_obj_err_from_error, crate::vm::verif_vm::err_instance_stub)]
+    #[kani::stub(crate::vm::Vm::new_error_from_value, crate::vm::verif_vm::error_from_value_stub)]
+    fn c08_failing_native_call_runs_finally_then_continues() {
+        let (outer, inner) = (sizes(), sizes());
+        kani::assume(outer.1 > 0);
+        let inner = (inner.0, 0u16);
+        let (l1, l2, x): (f64, f64, f64) = kani::any();
+        let mut st = FiberStore::empty();
+        let mut w = world(&mut st, code_with(outer, inner), l1, l2);
+        let mut nat = crate::memory::verif_mem::Placed::new(ObjNative::new(Gc::dangling(), crate::core::verif_core::fiber_yield_fn(), true));
+        push_handler(&mut w, OUTER_ARGS);
+        push_handler(&mut w, INNER_ARGS);
+        w.vm.push(Value::Boolean(true)); // receiver slot of the call (the Fiber class in a program)
+        w.vm.push(Value::Number(x));
+        w.vm.ip = unsafe { w.base.offset(40) };
+        let r = w.vm.call_native(nat.gc(), 1);
+        assert!(r.is_ok() && w.vm.ip == finally_addr(&w, INNER_ARGS, inner), "the failure is delivered to the finally block");
+        assert!(w.vm.stack_size() == 4 && matches!(slot(&w, 3), Value::ObjInstance(_)) && handlers(&w) == 1, "as an error instance above the values live at try entry; outer handler still active");
+        let r2 = w.vm.end_finally_impl();
+        kani::cover!(r2.is_ok(), "reach");
+        assert!(r2.is_ok() && w.vm.ip == catch_addr(&w, OUTER_ARGS, outer), "after the finally block the exception continues to the enclosing handler");
+        assert!(handlers(&w) == 0 && !w.vm.handling_exception && num(slot(&w, 1), l1) && num(slot(&w, 2), l2), "and is handled there, locals intact");
+        std::mem::forget(r);
+        std::mem::forget(r2);
+        std::mem::forget(nat);
+        std::mem::forget(w);
+    }
+
     /// Twin: must FAIL.
     #[kani::proof]
     #[kani::unwind(5)]
